@@ -33,7 +33,7 @@ EXPLANATION = (
     ' (5) addSubWeights only loads, stores and applies wrapping 16-bit add / subtract in matching numbers (no clamp, no saturating intrinsic) in every build variant, and the full refresh uses the same routine as the incremental update.'
     ' Added later; (7) the classification pass endGameEval<false>, whose result is cached under the material signature alone, branches only on functions of the material (signature, sums, piece counts, presence tests; sums of square-restricted counts over a partition of the board count as piece counts).'
     ' Added later; (8) no right shift of a signed value that may be negative in Evaluate / EndGameEval (reaching definitions prove non-negativity).'
-    ' Added later; (9) computeL1WB keeps an accumulator only while the king square is unchanged, or under a key that is as fine as getIndex (both interpreted for all 64 x 10 x 64 x 2 arguments). (3, strengthened) no lossy operator (abs, division, shift, mask, narrowing conversion) stands between the contempt and the key term. (10) NNEvaluator::popState pops a level or invalidates the remaining one (forceFullEval) on every path.')
+    ' Added later; (9) computeL1WB keeps an accumulator only while the king square is unchanged, or under a key that is as fine as getIndex (both interpreted for all 64 x 10 x 64 x 2 arguments). (3, strengthened) no lossy operator (abs, division, shift, mask, narrowing conversion) stands between the contempt and the key term. (10) NNEvaluator::popState pops a level or invalidates the remaining one (forceFullEval) on every path. (11) computeMaterialScore changes sign when the piece counts of the two colours are exchanged (interpreted for 25 count tables, the correction function uninterpreted).')
 UNDECIDED = ('numerical equality of incremental and from-scratch network outputs and of the SIMD kernels beyond the group-structure clause 5 (value-level), '
              'left-right mirror symmetry of the network, endgame cases that are written inline rather than as helper calls (listed as not covered).')
 ASSUMPTIONS = ['position domain: at most 30 non-king men', 'the helper evaluations (k*Eval) themselves are written from white\'s point of view']
@@ -55,6 +55,7 @@ def run(fb, rep, tier):
     c8_odd_arithmetic(fb, rep)
     c9_accumulator_reuse(fb, rep)
     c10_pop_restores_or_invalidates(fb, rep)
+    c11_material_score_antisymmetric(fb, rep)
 
 
 # SIMD kernels are selected by compile definitions: the thorough tier re-runs the rules on these builds too
@@ -1130,3 +1131,79 @@ def c10_pop_restores_or_invalidates(fb, rep):
     w = f.path_avoiding((f.entry, -1), R.at_exit, restores)
     rep.ob(clause, 'K2 must-pass-through', 'popState: every path pops a level or invalidates the remaining one (forceFullEval)', w is None, f.where,
            '' if w is None else 'path that does neither: ' + ' -> '.join('B%s@%s' % x for x in w[-6:]), f.sname)
+
+
+# ----------------------------------------------------------------------------- .11
+
+def c11_material_score_antisymmetric(fb, rep):
+    """K10 colour symmetry of the material correction.  Evaluate::computeMaterialScore() is the one hand-written, colour-specific
+    term that is added to the network's value (the network itself is fed a colour-normalised view, C07.4): it must change
+    sign when the colours are swapped.  The function is interpreted statement by statement with the piece counts given by
+    a table (`bitCount(pieceTypeBB(X))` -> count[X]) and the repo's correction function taken as an uninterpreted
+    two-argument function; for several count tables the score must be the negative of the score for the colour-swapped
+    table.  A count read from the wrong colour's piece set (a copy-paste slip among the declarations) breaks it for
+    positions with three knights and unequal queen counts only."""
+    clause = 'C07.11'
+    f = fb.find1('Evaluate::computeMaterialScore')
+    if rep.need(clause, f, 'Evaluate::computeMaterialScore') is None:
+        return
+    from ..peval import Evaluator, Unknown
+    npt = fb.const('Piece::nPieceTypes')
+    bking = fb.const('Piece::BKING')
+    if rep.need(clause, None if None in (npt, bking) else 1, 'Piece constants') is None:
+        return
+    swap = lambda p: p if p == 0 else (p + (bking - 1) if p < bking else p - (bking - 1))
+    cnt = {}
+
+    def stub_count(ev, t, env, d):
+        pcs = [n.get('cv') for n in walk(t) if isinstance(n, dict) and n.get('k') == 'int' and (n.get('n') or '').startswith('Piece::') and 'cv' in n]
+        pcs += [n.get('cv') for n in walk(t) if isinstance(n, dict) and n.get('k') == 'cast' and 'cv' in n and isinstance(n.get('e'), dict) and (n['e'].get('n') or '').startswith('Piece::')]
+        pcs = sorted(set(pcs))
+        if len(pcs) != 1:
+            raise Unknown('piece set of a count')
+        return cnt[pcs[0]]
+    opaque = lambda ev, t, env, d: (lambda a: (a[0] * 37 + a[1] * 101 + a[0] * a[1] * 7 + 13) % 1009)([ev.eval(x, env, d + 1) for x in t.get('args', [])])
+    zero = lambda ev, t, env, d: 0
+    reads = sum(1 for _, _, e in f.events() for n in walk(e) if isinstance(n, dict) and n.get('k') == 'call' and cname(n) == 'BitBoard::bitCount')
+    rep.floor(clause, 'piece counts read by computeMaterialScore', reads, 2)
+    stubs = {'BitBoard::bitCount': stub_count, 'Position::materialId': zero, 'EndGameEval::endGameEval': zero}
+    for c in {cname(n) for _, _, e in f.events() for n in walk(e) if isinstance(n, dict) and n.get('k') == 'call' and len(n.get('args', [])) == 2 and cname(n).split('::')[-1].startswith('correction')}:
+        stubs[c] = opaque
+    ev = Evaluator(fb, stubs=stubs)
+
+    def score_of(table):
+        cnt.clear()
+        cnt.update(table)
+        env = {}
+        result = None
+        for b, i, e in sorted(f.events(), key=lambda x: (x[2].get('ln') or 0)):
+            try:
+                if e.get('k') == 'decl':
+                    for v in e.get('vars', []):
+                        if v.get('init') is not None:
+                            env[('v', v['id'])] = ev.eval(v['init'], env)
+                elif e.get('k') == 'asg' and isinstance(_strip(e.get('l')), dict) and _strip(e['l']).get('k') == 'var':
+                    vid = ('v', _strip(e['l'])['id'])
+                    r = ev.eval(e['r'], env)
+                    env[vid] = {'=': r, '+=': env.get(vid, 0) + r, '-=': env.get(vid, 0) - r}.get(e.get('op'))
+                elif e.get('k') == 'asg' and (ap(e.get('l')) or '').endswith('.score'):
+                    result = ev.eval(e['r'], env)
+            except Unknown:
+                continue
+        return result
+    import random
+    rnd = random.Random(7)
+    bad, n_eval = [], 0
+    tables = [{p: rnd.randint(0, 4) for p in range(1, npt)} for _ in range(24)]
+    tables.append({p: (3 if p == fb.const('Piece::BKNIGHT') else (1 if p == fb.const('Piece::WQUEEN') else 0)) for p in range(1, npt)})
+    for tb in tables:
+        a = score_of(tb)
+        b = score_of({swap(p): c for p, c in tb.items()})
+        if a is None or b is None:
+            rep.broken(clause, 'computeMaterialScore is not evaluable (no assignment to the material score found)')
+            return
+        n_eval += 1
+        if a != -b:
+            bad.append('counts %s: score %d, colour-swapped %d' % ({p: c for p, c in tb.items() if c}, a, b))
+    rep.ob(clause, 'K10 colour symmetry', 'computeMaterialScore changes sign when the piece counts of the two colours are exchanged (%d count tables)' % n_eval, not bad, f.where,
+           '; '.join(bad[:2]) or 'antisymmetric for all tables', f.sname)
